@@ -84,7 +84,14 @@ func (r Registry) LookupInterface(name string) (*types.Interface, *types.TypePar
 		tparams = named.TypeParams()
 	}
 
-	return obj.Type().Underlying().(*types.Interface).Complete(), tparams, nil
+	iface := obj.Type().Underlying().(*types.Interface).Complete()
+	if !iface.IsMethodSet() {
+		// type sets (~int | ~string, comparable) can only constrain type
+		// parameters, they have no values to mock
+		return nil, nil, fmt.Errorf("%s (%s) is not an interface that can be implemented: it is a type constraint", name, obj.Type())
+	}
+
+	return iface, tparams, nil
 }
 
 // MethodScope returns a new MethodScope.
